@@ -46,11 +46,32 @@ R3_LIST = [e["name"] for e in poolreg.POOL_ENTRIES
            if e["sw"] in ("full", "row0")
            and e["name"] not in ("QBC[KL,rf]",)]
 R1_LIST = [e["name"] for e in poolreg.POOL_ENTRIES]
-FEAT_EQUIV = {e["name"] for e in poolreg.POOL_ENTRIES
-              if e["sw"] == "full" and e["feat"]}
+FEAT_EQUIV = {e["name"] for e in poolreg.POOL_ENTRIES if e["feat"]}
 MODEL_OVERRIDE = {"GreedySamplingTarget[GSy]": "nic"}
 # strategies whose first-step utilities are random by design
 RANDOM_UTILS = {"RandomSampling"}
+# utilities obtained by a bounded scalar optimiser (scipy minimize_scalar,
+# xatol ~1e-5): two runs on re-ordered / restricted input agree only up to
+# the optimiser's tolerance
+TOL = {"EpistemicUS[pwc]": dict(rtol=1e-4, atol=1e-6),
+       "EpistemicUS[pwc,precompute]": dict(rtol=1e-4, atol=1e-6),
+       "EpistemicUS[lr]": dict(rtol=1e-3, atol=1e-5)}
+# nearest-neighbour based scores break exact distance ties by row order
+KNN_TIE_SENSITIVE = {"ContrastiveAL"}
+
+
+def _tol(comp):
+    return TOL.get(comp, DIFF)
+
+
+def _has_distance_ties(X):
+    A = np.array(X, dtype=float)
+    D = np.sqrt(((A[:, None, :] - A[None, :, :]) ** 2).sum(-1))
+    for i in range(len(A)):
+        row = np.sort(np.delete(D[i], i))
+        if len(row) > 1 and np.any(np.diff(row) < 1e-9):
+            return True
+    return False
 
 
 def _weighted(names):
@@ -65,7 +86,11 @@ def _case(draw, tier):
     rel = draw(st.sampled_from(["R1", "R2", "R2", "R3", "R3"]))
     names = {"R1": R1_LIST, "R2": R2_FULL, "R3": R3_LIST}[rel]
     name = draw(st.sampled_from(_weighted(names)))
-    case = draw(gen.pool_case([name], force_cand="none", batch_sizes=[1, 2],
+    # R2 uses batch_size=1: a restricted candidate set clips larger batch
+    # sizes, and strategies such as TypiClust derive the number of clusters
+    # from the (clipped) batch size
+    case = draw(gen.pool_case([name], force_cand="none",
+                              batch_sizes=[1] if rel == "R2" else [1, 2],
                               min_unlabeled=2 if rel == "R2" else 1))
     case["relation"] = rel
     if name in MODEL_OVERRIDE:
@@ -171,6 +196,9 @@ def _run(case, comp, rel, yid, n, unl, nlab, labels, viol):
     if comp in TIE_SENSITIVE and rel in ("R2", "R3") and \
             _votes_depend_on_ties(case):
         return Outcome([], False, labels + ["skipped_tie_dependent_votes"])
+    if comp in KNN_TIE_SENSITIVE and rel == "R3" and \
+            _has_distance_ties(case["X"]):
+        return Outcome([], False, labels + ["skipped_knn_distance_ties"])
     rand_utils = comp in RANDOM_UTILS
     if rel == "R1":
         ok1, r1 = _query(case, {"mode": "idx", "value": unl})
@@ -179,7 +207,7 @@ def _run(case, comp, rel, yid, n, unl, nlab, labels, viol):
                                       "query"))
             return Outcome(viol, False, labels)
         q1, u1 = _first_row(r1)
-        if not rand_utils and not arr_close(u0, u1, **DIFF):
+        if not rand_utils and not arr_close(u0, u1, **_tol(comp)):
             viol.append(Violation(comp, "utilities_differ",
                                   "R1&none_vs_unlabeled_indices",
                                   f"{u0.tolist()} vs {u1.tolist()}"))
@@ -195,7 +223,7 @@ def _run(case, comp, rel, yid, n, unl, nlab, labels, viol):
                                           "query"))
             else:
                 q2, u2 = _first_row(r2)
-                if not rand_utils and not arr_close(u0[unl], u2, **DIFF):
+                if not rand_utils and not arr_close(u0[unl], u2, **_tol(comp)):
                     viol.append(Violation(
                         comp, "utilities_differ", "R1&none_vs_feature_rows",
                         f"{u0[unl].tolist()} vs {u2.tolist()}"))
@@ -216,7 +244,7 @@ def _run(case, comp, rel, yid, n, unl, nlab, labels, viol):
         q1, u1 = _first_row(r1)
         first_in = unl[0] in S
         trig = f"R2&subset_contains_first_unlabeled={first_in}"
-        if not rand_utils and not arr_close(u0[S], u1[S], **DIFF):
+        if not rand_utils and not arr_close(u0[S], u1[S], **_tol(comp)):
             viol.append(Violation(comp, "utilities_differ", trig,
                                   f"subset {S}: {u0[S].tolist()} vs "
                                   f"{u1[S].tolist()}"))
@@ -240,7 +268,7 @@ def _run(case, comp, rel, yid, n, unl, nlab, labels, viol):
     # u1[j] belongs to original row perm[j]
     back = np.full(n, np.nan)
     back[np.array(perm)] = u1
-    if not rand_utils and not arr_close(u0, back, **DIFF):
+    if not rand_utils and not arr_close(u0, back, **_tol(comp)):
         viol.append(Violation(comp, "utilities_differ", "R3&permuted_rows",
                               f"{u0.tolist()} vs {back.tolist()}"))
     elif _unique_max(u0) and perm[q1] != q0 and not rand_utils:
